@@ -94,17 +94,20 @@ def _name_to_month(name: str) -> int:
 #  - [^\W\d_] as a workaround for unsupported [[:alpha:]]
 #  - [0-9] instead of \d, because re.ASCII flag cannot be set.
 
+# A number must not be just a part of a longer sequence of digits (a missing separator
+# or a wrong number of digits must not be misread), hence the (?<!\d) and (?!\d) assertions.
+
 # HH:MM  HH:M:SS HH:MM:SS.sss  HH:MM:SS,sss  (one or two digits for H, M, S)
-_RE_TIME = re.compile(r'(\d{1,2}:\d{1,2}(:\d{1,2})?([.,]\d+)?)', flags=re.ASCII)
+_RE_TIME = re.compile(r'(?<!\d)(\d{1,2}:\d{1,2}(:\d{1,2})?([.,]\d+)?)(?!\d)', flags=re.ASCII)
 
 # YYYY-MM-DD  YYYY-month-DD
-_RE_YMD = re.compile(r'([0-9]{4})-([^\W\d_]{3,}|[0-9]{2})-([0-9]{2})')
+_RE_YMD = re.compile(r'(?<![0-9])([0-9]{4})-([^\W\d_]{3,}|[0-9]{2})-([0-9]{2})(?![0-9])')
 
-_RE_YEAR = re.compile(r'(\d{4})', flags=re.ASCII)
+_RE_YEAR = re.compile(r'(?<!\d)(\d{4})(?!\d)', flags=re.ASCII)
 _RE_ISO_DM = re.compile(
-    r'--(\d{2})-?(\d{2})', flags=re.ASCII)  # --MMDD --MM-DD (not valid ISO 8601, see the docs)
+    r'--(\d{2})-?(\d{2})(?!\d)', flags=re.ASCII)  # --MMDD --MM-DD (not valid ISO 8601, see the docs)
 _RE_MONTH = re.compile(r'([^\W\d_]{3,})\.?')
-_RE_DAY = re.compile(r'(\d{1,2})\.?', flags=re.ASCII)
+_RE_DAY = re.compile(r'(?<!\d)(\d{1,2})(?!\d)\.?', flags=re.ASCII)
 
 @overload
 def _convert_str(string: str, with_time: Literal[False]) -> dt.date:
